@@ -370,6 +370,16 @@ fn model_run(c: &Cfg, viol: &mut Vec<(String, String)>, ctx: &str) -> (u64, u64)
                     StepOut::Panic(p) => v(&format!("loop|panic@{}", p.tag()), format!("{ctx}: step after finish panicked")),
                 }
             }
+            // execute() is step() in a loop: on a finished machine it fails like the step does
+            match crate::emu::execute(&mut ax) {
+                Ok(Ok(())) => v("loop|execute-after-finish-succeeded", format!("{ctx}: execute() on the finished machine returned Ok, step() fails there")),
+                Ok(Err(_)) => {
+                    if crate::emu::fingerprint(&ax) != fp1 {
+                        v("loop|step-after-finish-changed-state", format!("{ctx}: execute() after the finish changed the machine"));
+                    }
+                }
+                Err(p) => v(&format!("loop|panic@{}", p.tag()), format!("{ctx}: execute() after finish panicked")),
+            }
             return (transitions, states);
         }
     }
